@@ -39,7 +39,8 @@ def valid_stream_st(draw):
     if 20 <= status <= 29:
         kind = draw(st.sampled_from(["utf8", "charset", "charset", "binary", "binary", "empty-meta"]))
         if kind == "utf8":
-            meta = draw(st.sampled_from(["text/gemini", "text/plain", "text/gemini; lang=en", "text/gemini; charset=utf-8"]))
+            meta = draw(st.sampled_from(["text/gemini", "text/plain", "text/gemini; lang=en", "text/gemini; charset=utf-8",
+                                         "text/gemini; lang=" + "é" * 500, "text/gemini; lang=" + "é" * 600]))
             body = draw(st.sampled_from(c13.SAMPLE_TEXT)).encode("utf-8")
         elif kind == "charset":
             cs = draw(st.sampled_from(["iso-8859-1", "latin-1", "iso-8859-15", "cp1252", "utf-16", "utf-16-le", "utf-16-be", "utf-32",
@@ -64,7 +65,8 @@ def valid_stream_st(draw):
             body = b"default type body\n"
     else:
         meta = draw(st.sampled_from(["gemini://other.example/next", "Not found", "Slow down", "Enter query", "", "Certificate required",
-                                     "gemini://up.example/loop", "é non-ascii meta"]))
+                                     "gemini://up.example/loop", "é non-ascii meta",
+                                     "é" * 400, "é" * 512, "é" * 513, "日" * 342, "gemini://up.example/" + "ü" * 600]))
         body = b""
     return {"stream": b2s(f"{status} {meta}\r\n".encode("utf-8") + body), "labels": labels + ["conforming"]}
 
@@ -81,10 +83,12 @@ def case_st(draw):
             "chunk": draw(st.sampled_from([0, 0, 1, 7, 100])),
             "down_disconnect": draw(st.sampled_from([False] * 9 + [True])),
             "via": draw(st.sampled_from(["object", "toml-int", "toml-float"])),
+            # location timeout (s) and how long the upstream thinks before it answers
+            "timing": draw(st.sampled_from([[5, 0], [5, 0], [5, 0], [50, 0], [50, 35], [50, 29.9], [120, 100]])),
             "tls_chunk": draw(st.sampled_from([0, 0, 5, 50]))}
 
 
-def _router_from_toml(via):
+def _router_from_toml(via, TIMEOUT=TIMEOUT):
     """[[locations]] handler = "proxy" with timeout written as an integer or a float, loaded like `nauyaca serve --config`."""
     import os
     import shutil
@@ -116,6 +120,8 @@ def run_case(case: dict):
 
     data = s2b(case["stream"])
     fault = case["fault"]
+    TIMEOUT, delay = case.get("timing") or [5, 0]
+    TIMEOUT = float(TIMEOUT)
     i = data.find(b"\r\n")
     hdr_end = i + 2 if i >= 0 else len(data)
 
@@ -127,7 +133,7 @@ def run_case(case: dict):
             n = case["chunk"]
             return [b] if not n else [b[k:k + n] for k in range(0, len(b), n)]
 
-        script = [("wait_request", 1.0)]
+        script = [("wait_request", 1.0)] + ([("sleep", float(delay))] if delay else [])
         if fault in (None,):
             for ch in chunks(data):
                 script += [("send", ch)]
@@ -157,7 +163,7 @@ def run_case(case: dict):
         if case.get("via", "object") == "object":
             route = ProxyHandler(upstream="gemini://up.example", prefix="/", strip_prefix=False, timeout=TIMEOUT).handle
         else:
-            route = _router_from_toml(case["via"]).route
+            route = _router_from_toml(case["via"], TIMEOUT).route
         tr = FakeTransport(loop)
         proto = GeminiServerProtocol(route, None)
         tr.attach(proto)
@@ -168,7 +174,7 @@ def run_case(case: dict):
             tr.peer_disconnect(None)
         await vloop.settle(10)
         # wait for the response (bounded)
-        for _ in range(400):
+        for _ in range(int(30 * TIMEOUT) + 400):
             if tr.closed_by_app() or tr.lost:
                 break
             await asyncio.sleep(0.1)
@@ -178,7 +184,7 @@ def run_case(case: dict):
 
     tr, t_resp, conns, up = vloop.run(scenario, horizon=1e6)
     S = tr.written()
-    info = {"S": b2s(S[:60]), "t": round(t_resp, 2), "conns": len(conns), "fault": fault}
+    info = {"S": b2s(S[:60]), "t": round(t_resp, 2), "conns": len(conns), "fault": fault, "slow_up": bool(delay)}
     if len(conns) > 1:
         return viol("more-than-one-upstream-connection", f"{conns}", **info)
     if case["down_disconnect"]:
@@ -258,7 +264,7 @@ def _nontrivial(case, v):
 
 
 def _labels(case, v):
-    return list(case["labels"]) + ["fault:" + str(case["fault"]), "ref:" + str(v.info.get("ref")), "status:" + v.info.get("S", "")[:2]] + \
+    return list(case["labels"]) + ["timing:%s/%s" % tuple(case.get("timing") or [5, 0]), "fault:" + str(case["fault"]), "ref:" + str(v.info.get("ref")), "status:" + v.info.get("S", "")[:2]] + \
         (["down-disconnect"] if case["down_disconnect"] else [])
 
 
